@@ -32,6 +32,17 @@ def comb_case(n, op):
     return bc.Case('comb%d%s' % (n, op), 'big', 64, op, ('M', [[comb(False)]]), ('M', [[comb(True)]]))
 
 
+def hub_case(n, op):
+    """n thin triangles with a common apex at the origin (all to the left of it) and one to the right, against a small square inside their box:
+    one result vertex of degree 2n+2; the contour stage must get through it without deep recursion or quadratic blow-up"""
+    m = float(n)
+    tris = [[[(0.0, 0.0), (-m, 2.0 * i + 1.0 - m), (-m, 2.0 * i - m)]] for i in range(n)]
+    tris.append([[(0.0, 0.0), (m, 0.0), (m, 1.0)]])
+    # the square lies INSIDE the subject's bounding box (no shortcut) and is disjoint from every triangle
+    b = ('M', [[[(1.0, 10.0), (2.0, 10.0), (2.0, 11.0), (1.0, 11.0)]]])
+    return bc.Case('hub%d%s' % (n, op), 'big', 64, op, ('M', tris), b)
+
+
 def run(rep, tier, seed):
     rng = random.Random(seed)
     c01.proof_part(rep, PID, tier)
@@ -74,19 +85,21 @@ def run(rep, tier, seed):
         for op in 'ID':
             big.append(big_case(n, op))
     big += [comb_case(40 if tier == 'quick' else 120, op) for op in 'UX']
+    big += [hub_case(60000 if tier == 'quick' else 200000, op) for op in 'UX']
     t0 = time.time()
     bigres = bc.run_impl(big, 'r', timeout=900)
     for c in big:
         r = bigres[c.cid]
         if r[0] != 'ok':
             rep.violation('C03: %s on a large valid input (%d edges)' % (r[0], c.n_edges()),
-                          {'generator': 'c03.big_case / comb_case', 'case_id': c.cid, 'edges': c.n_edges(), 'outcome': repr(r)[:300]})
+                          {'generator': 'c03.big_case / comb_case / hub_case', 'case_id': c.cid, 'edges': c.n_edges(), 'outcome': repr(r)[:300]})
     # early-break operations that leave a chain-shaped status behind (child processes: an abort must not take the check down)
     from .c18 import run_child
     nrect = 150000 if tier == 'quick' else 400000
     stack_scen = [('boolean-int', nrect, 'thread'), ('boolean-intdesc', nrect, 'thread'), ('boolean-intmix', nrect, 'thread'),
                   ('boolean-dif', nrect, 'main'), ('boolean-intdesc', 4 * nrect, 'main'),
-                  ('boolean-uni', nrect, 'thread'), ('boolean-xor', nrect, 'thread'), ('boolean-inthit', nrect, 'thread')]
+                  ('boolean-uni', nrect, 'thread'), ('boolean-xor', nrect, 'thread'), ('boolean-inthit', nrect, 'thread'),
+                  ('boolean-hub', 50000 if tier == 'quick' else 200000, 'thread'), ('boolean-hub', 200000 if tier == 'quick' else 800000, 'main')]
     from concurrent.futures import ThreadPoolExecutor
     with ThreadPoolExecutor(max_workers=8) as ex:
         sres = list(ex.map(run_child, stack_scen))
